@@ -502,7 +502,7 @@ def legal_assoc(which, npc, cid0, cid1, res, a, b, c, f, g, extra):
 
 
 @harness(
-    "C02", timeout=(150, 900),
+    "C02", timeout=(250, 900),
     shards=[{"pdu": "RQ"}, {"pdu": "AC"}],
     functions=["dul:DULServiceProvider._read_pdu_data", "dul:DULServiceProvider._decode_pdu", "pdu:A_ASSOCIATE_RQ.decode", "pdu:A_ASSOCIATE_AC.decode",
                "pdu_items:<every item class>.decode"],
